@@ -56,13 +56,51 @@ func NewTable(file storage.File) *Table {
 		size:        0,
 	}
 
-	runtime.AddCleanup(t, func(f func() error) {
-		if err := f(); err != nil {
+	type CleanupParams struct {
+		deleteFunc func() error
+		uri        string
+	}
+	params := CleanupParams{deleteFunc: file.CreateDeleteFunc(), uri: file.URI()}
+	retainTableFile(params.uri)
+
+	runtime.AddCleanup(t, func(p CleanupParams) {
+		// Another table in this process still uses the file.
+		if !releaseTableFile(p.uri) {
+			return
+		}
+		if err := p.deleteFunc(); err != nil {
 			slog.Error("table cleanup", "err", err)
 		}
-	}, file.CreateDeleteFunc())
+	}, params)
 
 	return t
+}
+
+// tableFileRefs counts, per table file, the in-memory tables of this process
+// that refer to it. A database opened from a checkpoint refers to the same files
+// as the tables of the database instance it replaces, so a file may only be
+// deleted when the last table referring to it has been collected.
+var tableFileRefs = struct {
+	sync.Mutex
+	counts map[string]int
+}{counts: make(map[string]int)}
+
+func retainTableFile(uri string) {
+	tableFileRefs.Lock()
+	defer tableFileRefs.Unlock()
+	tableFileRefs.counts[uri]++
+}
+
+// releaseTableFile drops one reference and reports whether it was the last one.
+func releaseTableFile(uri string) bool {
+	tableFileRefs.Lock()
+	defer tableFileRefs.Unlock()
+	tableFileRefs.counts[uri]--
+	if tableFileRefs.counts[uri] <= 0 {
+		delete(tableFileRefs.counts, uri)
+		return true
+	}
+	return false
 }
 
 type TableDocument struct {
@@ -106,7 +144,14 @@ func NewTableFromDocument(fs storage.FileSystem, dataOwnership kv.DataOwnership,
 		uri:           doc.URI,
 	}
 
+	retainTableFile(params.uri)
+
 	runtime.AddCleanup(t, func(p CleanupParams) {
+		// Another table in this process still uses the file.
+		if !releaseTableFile(p.uri) {
+			return
+		}
+
 		canDelete, err := p.dataOwnership.ExclusivelyOwnsTable(p.uri, p.startKey, p.endKey)
 		if err != nil {
 			slog.Error("failed determining exclusive ownership, not deleting", "err", err, "uri", p.uri)
